@@ -262,6 +262,13 @@ def check_case(case, acc):
                 acc.fail("pcDelta/bins=0", ("star1", seqs, seqs2), e, r)
                 return
             acc.ok(("bins0", float(e)))
+            # ... whatever the histogram options are
+            for kw0 in (dict(normalize=False), dict(pseudocount=0.5), dict(normalize=False, pseudocount=1)):
+                r = acc.call(pyrepseq.pcDelta, list(seqs), None if seqs2 is None else list(seqs2), bins=0, **kw0)
+                if raised(r) or np.ndim(r) != 0 or float(r) != float(e):
+                    acc.fail("pcDelta/bins=0/with-histogram-options", ("star1", seqs, seqs2), e, r, note=str(kw0))
+                    return
+            acc.ok()
             r = acc.call(pyrepseq.pcDelta, list(seqs), None if seqs2 is None else list(seqs2), normalize=False)
             e = ref_hist(ref_values("default", seqs, seqs2), list(range(25)))
             if not same(r, e, False):
